@@ -259,3 +259,123 @@ def attrs(q, names):
     except Exception as e:  # pylint: disable=broad-except
       out[n] = {"s": "<unreadable:%s>" % err_tag(e)}
   return out
+
+
+# =========================================================================== strengthening round
+# (C09, seeds C09-5 / C09-6 and the cross-cutting blind spots).  Additions only: nothing above
+# changes, so the C10 generator is what it was.
+
+PO2_CLASSES = ("quantized_po2", "quantized_relu_po2")
+STOCHASTIC_CLASSES = ("bernoulli", "stochastic_binary", "stochastic_ternary")
+SIGMOID_MODES = ("hard", "smooth", "real")
+
+
+def po2_boundary(cls_name, tier="quick"):
+  """boundary cells of the exponent-range derivation of the two po2 classes: the smallest
+  exponent widths x max_value below / at / above 1 (1 is where the exponent sign bit appears),
+  a non-power-of-two max_value, with and without the quadratic approximation, both slopes"""
+  if cls_name not in PO2_CLASSES:
+    return []
+  out = []
+  bits_l = [1, 2] if tier == "quick" else [1, 2, 3]
+  for bits in bits_l:
+    for mv in [None, 0.5, 1, 2, 4, 3]:
+      for quad in [False, True]:
+        slopes = [None] if cls_name == "quantized_po2" else [0, 0.25]
+        for sl in slopes:
+          kw = {"bits": bits}
+          if mv is not None:
+            kw["max_value"] = mv
+          if quad:
+            kw["quadratic_approximation"] = True
+          if sl:
+            kw["negative_slope"] = sl
+          out.append(kw)
+  # the same boundary under the other rounding modes / a large width
+  out += [{"bits": 1, "max_value": 2, "log2_rounding": "floor"},
+          {"bits": 2, "max_value": 2, "quadratic_approximation": True, "use_stochastic_rounding": True},
+          {"bits": 1, "max_value": 2.0}, {"bits": 1, "max_value": 1.0}, {"bits": 1, "max_value": 1.5},
+          {"bits": 8, "max_value": 2}, {"bits": 8, "max_value": 1}]
+  return out
+
+
+def po2_probe():
+  """probe across the WHOLE float32 exponent range: +-2**k, values between the powers, the
+  float32 extremes, zero"""
+  ks = np.array([-149, -140, -127, -126, -100, -65, -64, -63, -33, -32, -31, -17, -16, -15, -10, -9, -8,
+                 -7, -5, -4, -3, -2, -1, 0, 1, 2, 3, 4, 5, 7, 8, 9, 15, 16, 17, 31, 32, 33, 63, 64, 65,
+                 100, 126, 127], dtype=np.float64)
+  p = np.concatenate([2.0 ** ks, 1.4 * 2.0 ** ks[2:-1], 1.5 * 2.0 ** ks[2:-1], [0.0]])
+  x = np.concatenate([p, -p]).astype(np.float32)
+  return x.reshape(2, -1)
+
+
+def sigmoid_probe():
+  """values on which hard / smooth / real sigmoid differ visibly (and their saturation)"""
+  return np.linspace(-4.0, 4.0, 161).astype(np.float32).reshape(7, 23)
+
+
+# attributes every call rewrites (a used object differs from a fresh one in these only)
+VOLATILE = ("built", "scale", "quantization_scale")
+# private copy of a build-only option (`use_variables` is deliberately not serialised)
+BUILD_ONLY_MIRRORS = ("_use_variables",)
+
+
+def henc(v):
+  """comparable encoding of an attribute value that need not be a literal"""
+  try:
+    return enc(v)
+  except Exception:  # pylint: disable=broad-except
+    pass
+  if callable(v):
+    return {"s": "<callable:%s>" % getattr(v, "__name__", type(v).__name__)}
+  return {"s": "<%s>" % type(v).__name__}
+
+
+def hidden(q, names):
+  """everything a live quantizer holds besides its constructor arguments: vars(q) minus the
+  signature names (insertion order = __init__ order), encoded"""
+  # `_self_*`: bookkeeping of tf.Module's attribute tracking (appears with list-valued options)
+  return [[k, henc(v)] for k, v in vars(q).items() if k not in names and not k.startswith("_self_")]
+
+
+def form_of(v):
+  """how a value is held: literal | np_scalar | ndarray | tensor | variable"""
+  import tensorflow as tf
+  if isinstance(v, tf.Variable):
+    return "variable"
+  if tf.is_tensor(v):
+    return "tensor"
+  if isinstance(v, np.ndarray):
+    return "ndarray"
+  if isinstance(v, np.generic):
+    return "np_scalar"
+  return "literal"
+
+
+def forms(v, alt=0):
+  """the same option value held in other forms (bool / int / float literals only); `alt`
+  selects which of two numpy widths is used (both in the thorough tier: alt=None)"""
+  import tensorflow as tf
+  out = []
+  if isinstance(v, bool):
+    out += [("int", int(v)), ("np.bool_", np.bool_(v))]
+  elif isinstance(v, int):
+    out += [("np.int64", np.int64(v)), ("np.int32", np.int32(v))] if alt is None else \
+        [("np.int64", np.int64(v))] if alt == 0 else [("np.int32", np.int32(v))]
+    out += [("ndarray0", np.array(v)), ("tf.constant", tf.constant(v)), ("float", float(v))]
+  elif isinstance(v, float):
+    out += [("np.float32", np.float32(v)), ("np.float64", np.float64(v))] if alt is None else \
+        [("np.float32", np.float32(v))] if alt == 0 else [("np.float64", np.float64(v))]
+    out += [("ndarray0", np.array(v, dtype=np.float32)), ("tf.constant", tf.constant(v))]
+    if v == int(v):
+      out.append(("int", int(v)))
+  return out
+
+
+def is_tensor_dict(v):
+  """a tf.Tensor as serialize_keras_object leaves it: {'class_name': '__tensor__', ...}"""
+  try:
+    return v.get("class_name") == "__tensor__"
+  except Exception:  # pylint: disable=broad-except
+    return False
